@@ -3,14 +3,19 @@
 Theorems: lean/PersimVerif/Props/C01.lean (model lean/PersimVerif/Model/Bottleneck.lean over any linear
 ordered field, the Hopcroft–Karp call a parameter `oracle` with the contract "returns a maximum matching").
 Tie:  `persim.bottleneck.bottleneck` vs the model executed at Rat (driver op `bn`): value (exactly on dyadic
-      inputs, 1e-9*scale otherwise) and the two warning flags.
+      inputs, 1e-9*scale otherwise) and the two warning flags (the code's own two messages).
+Verdict (what makes a FAILING INPUT): on inputs inside the quantifier — finite births, deaths finite or +inf,
+      birth <= death, (n,2) or empty in any accepted form — the call returns, its value is within 1e-9*scale of the
+      certified optimum, and if a +inf death was present SOME warning (any text, any category) was raised.  NaN/-inf
+      deaths, points below the diagonal and a third column are compared with the model only.
 Contract: every `HopcroftKarp(graph).maximum_matching()` of the real run is recorded and re-checked by the
       driver (`cert.matching`), its maximality certified by a König vertex cover computed here and verified
       by the Lean checker (`cert.cover`, theorem `cover_cert_sound`).
 [T]:  the real value against (a) the exhaustive specification `spec.bn` (M+N <= 8), (b) a certified optimum at
       every size (independent exact oracle here, certificate verified by `cert.opt`, theorem `cert_opt_sound`),
       (c) the same cases under several PYTHONHASHSEED values in subprocesses,
-      (d) the distance returned with `matching=True` is bit-identical to the one without.
+      (d) the distance returned with `matching=True` equals the one without (up to rounding for the verdict;
+          bit-identity, which the model has, as a correspondence signal).
 """
 import json, math, os, subprocess, sys, warnings
 from fractions import Fraction
@@ -20,23 +25,32 @@ from ..translator import py2lean
 from ..common import enc, ask, HarnessError
 
 LEVEL = "proof"
-RULE = ("pairs of diagrams from one PRNG: sizes 0-7 (quick) / 0-40 (thorough) per side, coordinate modes lattice/half/"
+RULE = ("pairs of diagrams from one PRNG: sizes 0-7 mostly, a few up to 40 per side (quick) / many of each (thorough), coordinate modes lattice/half/"
         "dyadic (scales 2^-20..2^20)/decimal/uniform, repeated points (p=0.2), diagonal points, non-finite deaths "
-        "(inf mostly, -inf/nan rarely; p=0.25 of cases), empty sides in three array shapes, an extra third column, "
-        "whole-pair rescaling by 2^+-20, a small below-diagonal stream (model comparison only); every argument is handed over "
+        "(inf mostly; -inf/nan rarely and then compared with the model only; p=0.25 of cases), empty sides in every accepted "
+        "form ([], [[]], (), np.array([]), np.zeros((0,2)), np.array([[]])), an extra third column (judged on the (n,2) part), "
+        "whole-pair rescaling by 2^+-20, a small below-diagonal stream (model comparison only), 7% non-dyadic 'nested' pairs "
+        "(birth moved one way and death the other by the same one/two-decimal amount), two (quick) / 30 (thorough) pairs of 25-40 "
+        "points per side; every argument is handed over "
         "in a representation that holds its numbers unchanged: float64 array, list, tuple, and — where the coordinates "
         "allow — float32, int64/int32/int16/int8/uint8 arrays and nested Python-int lists; 12% of the cases are integer-valued "
         "diagrams spanning the whole range of such a dtype (negative coordinates for the signed ones), so that coordinate "
         "differences leave the dtype's range; "
         "non-trivial = at least 2 finite points in total; distinct by digest of (dgm1, dgm2)")
 ASSUMPTIONS = [
-    "births are finite; deaths are finite or inf/-inf/nan (np.isfinite treats the three alike, so does the model)",
+    "births are finite; deaths are finite or +inf.  The code and the model treat -inf and NaN deaths like +inf (np.isfinite); "
+    "the property says 'infinite death', so inputs with a NaN or -inf death are compared with the model only and never judged",
+    "warning clause: SOME warning raised during the call when a +inf death is present (any wording/category; no clause forbids "
+    "other warnings); the code's own two messages are compared with the model's flags as correspondence only",
+    "a third column is outside '(n,2) diagrams': when code and specification differ only with the extra column present the case "
+    "is a correspondence break, the verdict is taken on the same points as (n,2) diagrams",
     "every point of the finite parts has birth <= death (the guard of bottleneck_eq_spec; below-diagonal inputs are "
     "only compared against the model, the specification is not claimed there)",
     "hopcroftkarp.HopcroftKarp.maximum_matching returns a maximum-cardinality matching as a two-way dict "
     "(a parameter of the theorems; re-checked and certified for every probe of every run)",
     "exact-arithmetic idealisation: on dyadic and integer inputs the code's float arithmetic is exact and values are compared "
-    "exactly; elsewhere within 1e-9 * largest |coordinate| (no floor at 1)",
+    "exactly WITH THE MODEL; elsewhere within 1e-9 * largest |coordinate| (no floor at 1).  The verdict against the certified "
+    "optimum uses 1e-9 * largest |coordinate| in every mode (a result one ulp off is not a failing input)",
     "inputs are converted with dtype=float before any arithmetic (/repo fix 82ac8af), so the representation does not matter; the "
     "model is dtype-free: the same exact rationals go to the driver whatever the representation",
     "probe-level tie: the candidate list and the threshold graph of EVERY Hopcroft–Karp probe of the real run are read from the "
@@ -123,11 +137,11 @@ def to_array(d, shape_kind, rep="float64"):
         rep = "int64"                                 # replay files written before the representations existed
     if not rep or not rep_ok(d, rep):
         rep = "float64"
-    if len(d) == 0:
+    if len(d) == 0:                                   # every way of writing "no points" the functions accept
         if rep in ("list", "pyint"):
-            return []
+            return [[]] if shape_kind % 3 == 2 else []
         if rep == "tuple":
-            return ()
+            return ((),) if shape_kind % 3 == 2 else ()
         dt = float if rep == "float64" else getattr(np, rep)
         return [np.array([], dtype=dt), np.zeros((0, 2), dtype=dt), np.array([[]], dtype=dt)][shape_kind % 3]
     if rep == "list":
@@ -157,7 +171,9 @@ def case_args(case):
 
 
 def run_code(case, record=True):
-    """-> ('ok', value, warn1, warn2, probes) or ('err', kind, …)"""
+    """-> ('ok', value, warn1, warn2, probes, recorder, anywarn) or ('err', kind, …).  warn1/warn2: the code's own two
+    messages were seen (compared with the MODEL's flags only — wording is not part of the property); anywarn: some
+    warning, whatever its text or category, was raised during the call (what the property's clause asks for)"""
     bmod = common.pm("bottleneck")
     a, b = case_args(case)
     real = bmod.HopcroftKarp
@@ -171,11 +187,11 @@ def run_code(case, record=True):
                 try:
                     v = bmod.bottleneck(a, b)
                 except Exception as e:      # the code's own error kinds are part of the contract
-                    return ("err", type(e).__name__, False, False, rec.probes, rec)
+                    return ("err", type(e).__name__, False, False, rec.probes, rec, False)
         msgs = [str(x.message) for x in w]
         w1 = any(m.startswith("dgm1 has points with non-finite death") for m in msgs)
         w2 = any(m.startswith("dgm2 has points with non-finite death") for m in msgs)
-        return ("ok", float(v), w1, w2, rec.probes, rec)
+        return ("ok", float(v), w1, w2, rec.probes, rec, len(w) > 0)
     finally:
         bmod.HopcroftKarp = real
 
@@ -187,7 +203,23 @@ def finite_part(d):
 
 
 def guard_ok(case):
+    """the input is inside the property's quantifier as far as its NUMBERS go: finite births, deaths finite or +inf
+    (NaN and -inf deaths are not "infinite death"), birth <= death on the finite part"""
+    pts = case["dgm1"] + case["dgm2"]
+    if any(not math.isfinite(p[0]) or math.isnan(p[1]) or p[1] == -math.inf for p in pts):
+        return False
     return all(p[0] <= p[1] for p in finite_part(case["dgm1"]) + finite_part(case["dgm2"]))
+
+
+def has_extra_col(case):
+    return any(len(p) > 2 for p in case["dgm1"] + case["dgm2"])
+
+
+def trimmed(case):
+    """the same input as (n,2) diagrams (the property quantifies over those; further columns are an extension of the
+    code's docstring, not of the statement)"""
+    out = dict(case, dgm1=[list(p[:2]) for p in case["dgm1"]], dgm2=[list(p[:2]) for p in case["dgm2"]])
+    return out
 
 
 def aug_exact(S, T):
@@ -321,15 +353,53 @@ def gen_int_case(ctx, nmax):
             "rep": reps, "below": False, "infs": 0}
 
 
-def gen_case(ctx, nmax, below=False):
+def gen_nested_case(ctx, nmax):
+    """non-dyadic (one/two-decimal or uniform) diagrams whose second side is the first with points moved CONCENTRICALLY:
+    birth one way and death the other by the same amount e (nested intervals, so |b-b'| = |d-d'| = e and the two
+    persistences differ by exactly 2e up to rounding), besides plain shifts, kept, dropped and new points.  The
+    deciding cost then ties with half a persistence difference, where a bound computed in floating point without
+    slack lands one ulp on the wrong side"""
     g, r = ctx.gen, ctx.rng
-    if not below and r.random() < 0.12:
-        return gen_int_case(ctx, nmax)
+    mode = r.choice(["dec", "dec", "unif"])
+    n = r.choice([1, 1, 2, 3, r.randint(1, max(1, nmax))])
+    d1 = [g.bar(mode, allow_diag=False) for _ in range(n)]
+    d2 = []
+    for b, d in d1:
+        e = round(r.uniform(0.05, 0.6), r.choice([1, 1, 2])) or 0.1
+        u = r.random()
+        if u < 0.45:
+            d2.append([b - e, d + e])
+        elif u < 0.7:
+            d2.append([b + e, d - e] if b + e <= d - e else [b - e, d + e])
+        elif u < 0.8:
+            d2.append([b + e, d + e])
+        elif u < 0.9:
+            d2.append([b, d])
+        elif u < 0.95:
+            d2.append(g.bar(mode, allow_diag=True))
+    r.shuffle(d2)
+    d2 = d2[:max(nmax, 1)]
+    if r.random() < 0.5:
+        d1, d2 = d2, d1
+    ctx.count("gen:nested_nondyadic")
+    return {"dgm1": d1, "dgm2": d2, "mode": mode, "shape1": r.randint(0, 2), "shape2": r.randint(0, 2),
+            "rep": [r.choice(["float64", "list", "tuple"]), r.choice(["float64", "list", "tuple"])], "below": False, "infs": 0}
+
+
+def gen_case(ctx, nmax, below=False, nmin=0):
+    g, r = ctx.gen, ctx.rng
+    if not below and not nmin:
+        u = r.random()
+        if u < 0.12:
+            return gen_int_case(ctx, nmax)
+        if u < 0.19:
+            return gen_nested_case(ctx, nmax)
     mode = r.choice(["lattice", "lattice", "half", "dyadic", "dec", "unif"])
     sizes = []
     for _ in range(2):
         u = r.random()
-        sizes.append(0 if u < 0.08 else r.randint(1, min(3, nmax)) if u < 0.35 else r.randint(0, nmax))
+        sizes.append(r.randint(nmin, nmax) if nmin else
+                     0 if u < 0.08 else r.randint(1, min(3, nmax)) if u < 0.35 else r.randint(0, nmax))
     dgms = []
     for n in sizes:
         pts = []
@@ -343,7 +413,8 @@ def gen_case(ctx, nmax, below=False):
         for p in dgms[0]:
             if r.random() < 0.5:
                 dgms[1].append(list(p))
-        dgms[1] = dgms[1][:nmax]
+        if not nmin:
+            dgms[1] = dgms[1][:nmax]
     sc = 1.0
     if mode != "dyadic" and r.random() < 0.2:
         sc = 2.0 ** r.choice([-20, 20])
@@ -388,12 +459,16 @@ CORPUS = [
     {"dgm1": [[0.5, 1], [0.6, 1.1]], "dgm2": [[0.5, 1.1]], "mode": "dec"},
     {"dgm1": [[0, 0], [1, 1], [2, 2]], "dgm2": [[3, 3]], "mode": "lattice"},               # only diagonal points
     {"dgm1": [[0, 2 ** 20]], "dgm2": [[2 ** -20, 2 ** -19]], "mode": "dyadic"},
+    {"dgm1": [], "dgm2": [[1, 2]], "mode": "lattice", "rep": ["list", "list"], "shape1": 2},     # [[]]
+    {"dgm1": [], "dgm2": [], "mode": "lattice", "shape1": 0, "shape2": 2},                        # np.array([]) vs np.array([[]])
+    {"dgm1": [[0, 3]], "dgm2": [], "mode": "lattice", "rep": ["tuple", "tuple"], "shape2": 2},   # ((),)
+    {"dgm1": [[0.2, 0.9]], "dgm2": [[0.1, 1.0]], "mode": "dec"},                                  # nested, one-decimal: 0.1
 ]
 
 
 def norm_case(c):
     out = {"dgm1": [list(map(float, p)) for p in c["dgm1"]], "dgm2": [list(map(float, p)) for p in c["dgm2"]]}
-    for k in ("mode", "shape1", "shape2", "int", "rep", "below", "infs"):
+    for k in ("mode", "shape1", "shape2", "int", "rep", "below", "infs", "law"):
         if k in c:
             out[k] = c[k]
     out.setdefault("mode", "unif")
@@ -407,10 +482,33 @@ def scale_of(case):
 
 
 def same_value(code, truth, case):
-    """code: float, truth: Fraction — exact on dyadic inputs, 1e-9*scale otherwise"""
+    """CORRESPONDENCE code vs model.  code: float, truth: Fraction — exact on dyadic inputs, 1e-9*scale otherwise"""
     if case.get("mode") in EXACT_MODES:
         return math.isfinite(code) and Fraction(code) == truth
     return math.isfinite(code) and abs(code - float(truth)) <= TOL * scale_of(case)
+
+
+def value_holds(code, truth, case):
+    """VERDICT on the property: the returned value is the min-max cost up to rounding, 1e-9 * largest |coordinate| in
+    every mode (bit-for-bit equality on dyadic inputs is a correspondence-level signal only, see same_value)"""
+    return math.isfinite(code) and abs(Fraction(code) - truth) <= Fraction(TOL * scale_of(case))
+
+
+def wants_warning(case):
+    """the clause 'points with infinite death are dropped with a warning' applies: some death is +inf"""
+    return any(p[1] == math.inf for p in case["dgm1"] + case["dgm2"])
+
+
+def verdict(case, code, truth):
+    """the property as stated, on the real code's outcome `code` for an input inside the quantifier ->
+    (holds, reason).  A warning of ANY text/category satisfies the warning clause; no clause forbids a warning."""
+    if code[0] != "ok":
+        return False, "the code raised %s" % code[1]
+    if not value_holds(code[1], truth, case):
+        return False, "value %r, min-max matching cost %s" % (code[1], truth)
+    if wants_warning(case) and not code[6]:
+        return False, "a point with infinite death was dropped without any warning"
+    return True, ""
 
 
 # ----------------------------------------------------------------------------- protocol lines for one case
@@ -534,6 +632,8 @@ def run(ctx):
         cases.append(gen_case(ctx, 7, below=r.random() < 0.05))
     for _ in range(nbig):
         cases.append(gen_case(ctx, r.choice([12, 20, 40])))
+    for _ in range(ctx.n(2, 30)):                 # beyond 40 points in total (25-40 per side, plus shared points)
+        cases.append(gen_case(ctx, 40, nmin=25))
 
     # 1. the real code first (its outputs go into the certificate lines)
     plan, lines = [], []
@@ -592,6 +692,10 @@ def run(ctx):
             ctx.count("with_nonfinite_death")
         if case.get("below"):
             ctx.count("below_diagonal_stream")
+        if not guard_ok(case) and not case.get("below"):
+            ctx.count("nan_or_neginf_death(model comparison only)")
+        if has_extra_col(case):
+            ctx.count("extra_third_column")
         ctx.count("hk_probes", len(code[4]))
         model = answers[ent["idx"]["bn"]]
         if isinstance(model, str):
@@ -618,19 +722,27 @@ def run(ctx):
             tie = tie_check(case, code, ent["tie_idx"], answers)
             ctx.count("probe_tie_graphs_compared", sum(1 for kd, _, _ in ent["tie_idx"] if kd in ("thr", "thr_lo")))
             ctx.count("probe_tie_exact" if case.get("mode") in EXACT_MODES else "probe_tie_sandwich")
-        # 2c. [T] the property on the real code: value = certified optimum, flags = "something was dropped"
-        prop_ok = True
+        # 2c. [T] the property on the real code: value = certified optimum (up to rounding), and SOME warning when a
+        # point with +inf death was dropped.  Only for inputs inside the quantifier (guard_ok); an input with a further
+        # column is judged on its (n,2) part — what the code does with the extra column is a correspondence matter
+        prop_ok, why_not, outside = True, "", False
+        vcase = case
         if truth is not None:
-            want_w1 = any(not math.isfinite(p[1]) for p in case["dgm1"])
-            want_w2 = any(not math.isfinite(p[1]) for p in case["dgm2"])
-            prop_ok = code[0] == "ok" and same_value(code[1], truth, case) and code[2] == want_w1 and code[3] == want_w2
+            prop_ok, why_not = verdict(case, code, truth)
+            if not prop_ok and has_extra_col(case):
+                vcase = trimmed(case)
+                prop_ok, det = check_property(vcase)
+                why_not = "%s (the same points as (n,2) diagrams)" % (det,)
+                if prop_ok:
+                    outside, agree = True, False
+                    ctx.count("differs_only_with_extra_column")
             ctx.test("certified_optimum", prop_ok)
             if spec is not None:
-                ctx.test("exhaustive_small", code[0] == "ok" and same_value(code[1], spec, case))
+                ctx.test("exhaustive_small", prop_ok or (code[0] == "ok" and value_holds(code[1], spec, case)))
         if not prop_ok:
-            ctx.violation("bottleneck differs from the min-max matching cost: code=%r certified optimum=%s exhaustive=%s model=%r"
-                          % (code[:4], truth, spec, model), slim(case), found_input=True,
-                          code=repr(code[:4]), spec=str(truth), reproducer=reproducer(case))
+            ctx.violation("bottleneck differs from the min-max matching cost / warning clause (%s): code=%r certified optimum=%s exhaustive=%s model=%r"
+                          % (why_not, code[:4], truth, spec, model), slim(vcase), found_input=True,
+                          code=repr(code[:4]), spec=str(truth), reproducer=reproducer(vcase))
         elif not agree or tie:
             # correspondence break on an input where the property holds: keep going — a failing input may be among the
             # remaining cases; otherwise fresh inputs are searched after the loop (DESIGN 3.3)
@@ -667,38 +779,67 @@ def run(ctx):
     hash_seeds(ctx, cases)
 
 
-def matching_flag(ctx, plan):
-    """[T] `matching=True` returns the same distance (theorem matching_flag_value on the model)"""
+def run_with_flag(case):
+    """the distance component of bottleneck(..., matching=True): float, or 'err:Kind'"""
     bmod = common.pm("bottleneck")
+    a, b = case_args(case)
+    with warnings.catch_warnings():
+        warnings.simplefilter("ignore")
+        with np.errstate(all="ignore"):
+            try:
+                return float(bmod.bottleneck(a, b, matching=True)[0])
+            except Exception as e:
+                return "err:" + type(e).__name__
+
+
+def flag_law(case, plain, v):
+    """'same' (bit-identical), 'rounding' (equal up to 1e-9*scale: correspondence-level only) or 'differs'"""
+    if isinstance(v, float) and (v == plain or (math.isnan(v) and math.isnan(plain))):
+        return "same"
+    if isinstance(v, float) and math.isfinite(v) and math.isfinite(plain) and abs(v - plain) <= TOL * scale_of(case):
+        return "rounding"
+    return "differs"
+
+
+def matching_flag(ctx, plan):
+    """[T] `matching=True` returns the same distance (theorem matching_flag_value on the model).  Verdict: equal up to
+    rounding on inputs inside the quantifier; bit-identity (which the model has) is reported as a correspondence break"""
+    noted = False
     for ent in plan[:ctx.n(150, 800)]:
         case, code = ent["case"], ent["code"]
         if code[0] != "ok":
             continue
-        a, b = case_args(case)
-        with warnings.catch_warnings():
-            warnings.simplefilter("ignore")
-            with np.errstate(all="ignore"):
-                try:
-                    v = float(bmod.bottleneck(a, b, matching=True)[0])
-                except Exception as e:
-                    v = "err:" + type(e).__name__
-        ok = v == code[1]
-        ctx.test("matching_flag_same_value", ok)
-        if not ok:
-            ctx.violation("bottleneck(..., matching=True) returns distance %r, without the flag %r (certified optimum %s)"
-                          % (v, code[1], ent.get("truth")), slim(case), found_input=True, reproducer=reproducer(case))
+        v = run_with_flag(case)
+        how = flag_law(case, code[1], v)
+        inside = guard_ok(case) and not has_extra_col(case)
+        ctx.test("matching_flag_same_value", how != "differs" or not inside)
+        if how == "same":
+            continue
+        what = ("bottleneck(..., matching=True) returns distance %r, without the flag %r (certified optimum %s)"
+                % (v, code[1], ent.get("truth")))
+        if how == "differs" and inside:
+            ctx.violation(what, dict(slim(case), law="matching_flag"), found_input=True, reproducer=reproducer(case))
             return
+        if not noted:
+            noted = True
+            ctx.violation(what + (" — equal up to rounding, the model's two values are identical" if how == "rounding"
+                                  else " — on an input outside the property's quantifier (NaN/-inf death, point below "
+                                       "the diagonal or a third column)"),
+                          {"correspondence": "bn.matching_flag", "line": "bn %s %s" % (enc(case["dgm1"]), enc(case["dgm2"])),
+                           "code": repr(v), "model": repr(code[1]), "case": dict(slim(case), law="matching_flag")}, found_input=False)
 
 
 def slim(case):
-    return {k: case[k] for k in ("dgm1", "dgm2", "mode", "shape1", "shape2", "int", "rep") if k in case}
+    return {k: case[k] for k in ("dgm1", "dgm2", "mode", "shape1", "shape2", "int", "rep", "law") if k in case}
 
 
-def _literal(d, rep):
+def _literal(d, rep, shape_kind=0):
     if not rep_ok(d, rep):
         rep = "float64"
     if rep in ("list", "tuple", "pyint"):
-        return repr(to_array(d, 0, rep))
+        return repr(to_array(d, shape_kind, rep))
+    if not d:
+        return ["np.array([], dtype=np.%s)", "np.zeros((0, 2), dtype=np.%s)", "np.array([[]], dtype=np.%s)"][shape_kind % 3] % rep
     width = max(2, len(d[0]) if d else 2)
     return "np.array(%r, dtype=np.%s).reshape(-1, %d)" % (json.loads(json.dumps(common.sanitize(d))), rep, width)
 
@@ -706,12 +847,14 @@ def _literal(d, rep):
 def reproducer(case):
     r1, r2 = case_reps(case)
     return ("import numpy as np; from persim.bottleneck import bottleneck; print(bottleneck(%s, %s))"
-            % (_literal(case["dgm1"], r1), _literal(case["dgm2"], r2))).replace("'inf'", "np.inf").replace("'nan'", "np.nan").replace("'-inf'", "-np.inf")
+            % (_literal(case["dgm1"], r1, case.get("shape1", 0)), _literal(case["dgm2"], r2, case.get("shape2", 0)))
+            ).replace("'inf'", "np.inf").replace("'nan'", "np.nan").replace("'-inf'", "-np.inf")
 
 
 def check_property(case):
     """the property on the real code for one input, decided by the specification (exhaustive when small, certified
-    optimum always) -> (holds, details)"""
+    optimum always) -> (holds, details).  An input with further columns is judged on its (n,2) part when the verdict
+    on the input as given is negative (the statement quantifies over (n,2) diagrams)."""
     code = run_code(case, record=False)
     v, ln = truth_for(case)
     lines = [ln]
@@ -722,10 +865,15 @@ def check_property(case):
         raise HarnessError("optimum certificate rejected: %r" % (ln[:400],))
     if len(ans) > 1 and ans[1] != v:
         raise HarnessError("exhaustive spec %r != certified optimum %r" % (ans[1], v))
-    want_w1 = any(not math.isfinite(p[1]) for p in case["dgm1"])
-    want_w2 = any(not math.isfinite(p[1]) for p in case["dgm2"])
-    ok = code[0] == "ok" and same_value(code[1], v, case) and code[2] == want_w1 and code[3] == want_w2
-    return ok, {"code": repr(code[:4]), "spec": str(v), "exhaustive": str(ans[1]) if len(ans) > 1 else None}
+    ok, why = verdict(case, code, v)
+    det = {"code": repr(code[:4]), "spec": str(v), "exhaustive": str(ans[1]) if len(ans) > 1 else None}
+    if why:
+        det["why"] = why
+    if not ok and has_extra_col(case):
+        ok, det2 = check_property(trimmed(case))
+        det2["with_extra_column"] = det
+        return ok, det2
+    return ok, det
 
 
 def search_fresh(ctx, case):
@@ -746,6 +894,8 @@ def search_fresh(ctx, case):
         ok, det = check_property(c)
         ctx.count("search_cases")
         if not ok:
+            if "with_extra_column" in det:
+                c = trimmed(c)
             ctx.violation("bottleneck differs from the min-max matching cost (found while searching after a model disagreement): %r"
                           % (det,), slim(c), found_input=True, reproducer=reproducer(c), **det)
             return True
@@ -821,10 +971,19 @@ def replay(ctx, rep):
         print("this process:", v0, " under PYTHONHASHSEED=%s:" % c["hashseed"], v)
         return v == v0
     if not guard_ok(case):
-        print("input has a point below the diagonal: outside the guard of the property")
+        print("input has a point below the diagonal or a NaN/-inf death: outside the quantifier of the property")
         return True
+    if c.get("law") == "matching_flag":
+        plain = run_code(case, record=False)
+        v = run_with_flag(case)
+        print("without the flag:", plain[:2], " with matching=True:", v)
+        if plain[0] != "ok":
+            return check_property(case)[0]
+        how = flag_law(case, plain[1], v)
+        print("the two distances are", {"same": "bit-identical", "rounding": "equal up to rounding (1e-9*scale)", "differs": "different"}[how])
+        return how != "differs"
     ok, det = check_property(case)
-    print("code:", det["code"], "\ncertified optimum:", det["spec"], "\nexhaustive:", det["exhaustive"])
+    print("code:", det["code"], "\ncertified optimum:", det["spec"], "\nexhaustive:", det["exhaustive"], "\n" + det.get("why", ""))
     return ok
 
 
@@ -846,7 +1005,11 @@ MANIFEST = {
             "(returns a maximum-cardinality matching) is a parameter of the theorems and is certified per run — every probe of the "
             "real run is re-checked to be a matching of the claimed size and its maximality is certified by a König vertex cover "
             "verified by the Lean checker. The driver's own oracle is untrusted too: `bn` answers only values its verified "
-            "certificate checker accepts. [T]: hash-seed subprocess runs, exhaustive/certified comparison on the real code.",
+            "certificate checker accepts. [T]: hash-seed subprocess runs, exhaustive/certified comparison on the real code. "
+            "A failing input is claimed only inside the statement's quantifier (finite births, deaths finite or +inf, birth <= death, "
+            "(n,2) or empty in any accepted form): the call returns, the value is within 1e-9*largest |coordinate| of the certified optimum "
+            "and SOME warning is raised when a +inf death is dropped; warning wording, NaN/-inf deaths, a third column and bit-for-bit "
+            "equality are compared with the model only (correspondence breaks).",
     "technique": "Lean 4 theorems over a hand-written model (oracle as parameter) + differential correspondence + verified certificate checkers",
 }
 MANIFEST["note"] += " " + py2lean.manifest_note("bottleneck")
